@@ -7,7 +7,11 @@ import (
 )
 
 func main() {
-	p, err := chk.Load("/repo", "linux", "amd64")
+	repo := "/repo"
+	if r := os.Getenv("REPO"); r != "" {
+		repo = r
+	}
+	p, err := chk.Load(repo, "linux", "amd64")
 	if err != nil {
 		panic(err)
 	}
